@@ -10,11 +10,11 @@ cd "$WT" || exit 9
 export CARGO_NET_OFFLINE=true
 git diff > "$OUT/current.diff"
 if diff -q <(grep -v '^index ' "$OUT/current.diff") <(grep -v '^index ' "$OUT/patch.diff"); then echo "PATCH_MATCHES_WORKTREE=yes"; else echo "PATCH_MATCHES_WORKTREE=no"; fi
-cargo check --workspace --offline -j 6 2>&1 | tail -2; echo "CHECK_RC=${PIPESTATUS[0]}"
-cargo test --offline -j 6 "$@" 2>&1 | grep -E "^test |test result" | tail -15; echo "DEMO_WITH_CHANGE_RC=${PIPESTATUS[0]}"
-cargo test --workspace --offline --no-fail-fast -j 6 2>&1 | grep -E "^test .* \.\.\. FAILED" | sort -u > "$OUT/failed_with_change.txt"
+cargo check --workspace --offline -j 14 2>&1 | tail -2; echo "CHECK_RC=${PIPESTATUS[0]}"
+cargo test --offline -j 14 "$@" 2>&1 | grep -E "^test |test result" | tail -15; echo "DEMO_WITH_CHANGE_RC=${PIPESTATUS[0]}"
+cargo test --workspace --offline --no-fail-fast -j 14 2>&1 | grep -E "^test .* \.\.\. FAILED" | sort -u > "$OUT/failed_with_change.txt"
 git apply -R "$OUT/patch.diff" || { echo "REVERT_FAILED"; exit 8; }
-cargo test --offline -j 6 "$@" 2>&1 | grep -E "^test |test result" | tail -15; echo "DEMO_WITHOUT_CHANGE_RC=${PIPESTATUS[0]}"
+cargo test --offline -j 14 "$@" 2>&1 | grep -E "^test |test result" | tail -15; echo "DEMO_WITHOUT_CHANGE_RC=${PIPESTATUS[0]}"
 git apply "$OUT/patch.diff" || echo "REAPPLY_FAILED"
 echo "NEW_FAILURES_VS_BASELINE:"; comm -23 "$OUT/failed_with_change.txt" /tmp/wt/baseline_failed.txt
 echo VERIFY_DONE
